@@ -720,9 +720,8 @@ impl<H: BuildHasher + Default + Clone> Ex<H> {
                 if fuse.is_some() && is_fuse(&*p) {
                     out.push_str("unwound");
                     unwound = true;
-                    if matches!(toks[0], "retain" | "retainmut") {
-                        self.silent = true;
-                    }
+                    // (retain's drop guard lets the map finish its bookkeeping:
+                    // the model describes the state after an unwound retain)
                 } else {
                     out.push_str("fault panic");
                     dead = true;
